@@ -17,6 +17,13 @@ __all__ = (
 )
 
 
+def _linear(dist):
+    """
+    The statistics below weight outcomes by probabilities, not log-probabilities.
+    """
+    return dist.copy(base='linear') if dist.is_log() else dist
+
+
 def mean(dist):
     """
     Computes the mean of the distribution.
@@ -37,6 +44,7 @@ def mean(dist):
         If the outcomes of the `dist` are not numerical.
     """
     numerical_test(dist)
+    dist = _linear(dist)
 
     outcomes, pmf = zip(*dist.zipped(mode='patoms'))
     outcomes = np.asarray(outcomes)
@@ -65,6 +73,7 @@ def central_moment(dist, n):
     TypeError
         If the outcomes of the `dist` are not numerical.
     """
+    dist = _linear(dist)
     mu = mean(dist)
     outcomes, pmf = zip(*dist.zipped(mode='patoms'))
     outcomes = np.asarray(outcomes)
@@ -140,10 +149,18 @@ def median(dist):
         If the outcomes of the `dist` are not numerical.
     """
     numerical_test(dist)
+    dist = _linear(dist)
 
-    g = np.asarray(dist.outcomes[(dist.pmf.cumsum() > 0.5).argmax()])
-    ge = np.asarray(dist.outcomes[(dist.pmf.cumsum() >= 0.5).argmax()])
-    return (g + ge) / 2
+    def _median(d):
+        g = np.asarray(d.outcomes[(d.pmf.cumsum() > 0.5).argmax()])
+        ge = np.asarray(d.outcomes[(d.pmf.cumsum() >= 0.5).argmax()])
+        return (g + ge) / 2
+
+    if dist.is_joint() and dist.outcome_length() > 1:
+        # The median of each index is the median of that index's marginal.
+        return np.asarray([_median(dist.marginal([i])).flatten()[0]
+                           for i in range(dist.outcome_length())])
+    return _median(dist)
 
 
 def mode(dist):
@@ -167,6 +184,7 @@ def mode(dist):
         If the outcomes of the `dist` are not numerical.
     """
     numerical_test(dist)
+    dist = _linear(dist)
 
     try:
         dists = [dist.marginal([i]) for i in range(dist.outcome_length())]
